@@ -353,7 +353,8 @@ def mutants(mb):
     mb.add_text("unique-unhashable", M, "        try:\n            return len(set(map(to_hashable, data))) == len(data)\n        except TypeError:  # unhashable element which is neither a list nor a dict\n            return all(elt not in data[:i] for i, elt in enumerate(data))\n", "        return len(set(map(to_hashable, data))) == len(data)\n", "C03.R1", "UniqueItemsConstraint")
     mb.add_text("errors-sorted-mixed", E, "        try:\n            child_keys = sorted(self.children)\n        except TypeError:  # keys of different types, e.g. str and int\n            child_keys = sorted(\n                self.children, key=lambda key: (key.__class__.__name__, str(key))\n            )\n", "        child_keys = sorted(self.children)\n", "C03.R4", "_errors")
     # new hazards
-    mb.add_text("multiple-of-round", M, "        return not (data % self.mult_of)\n", "        quotient = data / self.mult_of\n        return abs(quotient - round(quotient)) < 1e-9\n", "C03.R1", "MultipleOfConstraint")
+    mb.add_text("multiple-of-round", M, "        try:\n            return not (data % self.mult_of)\n        except OverflowError:", "        try:\n            quotient = data / self.mult_of\n            return abs(quotient - round(quotient)) < 1e-9\n        except ZeroDivisionError:", "C03.R1", "MultipleOfConstraint")
+    mb.add_text("multiple-of-overflow", M, "        try:\n            return not (data % self.mult_of)\n        except OverflowError:  # integer too large to be converted to float\n            from fractions import Fraction\n\n            return not (Fraction(data) % Fraction(self.mult_of))\n", "        return not (data % self.mult_of)\n", "C03.R1", "MultipleOfConstraint")
     mb.add_text("union-bytype-no-keyerror", M, "        except KeyError:\n            raise bad_type(data, *self.method_by_cls) from None\n", "        except IndexError:\n            raise bad_type(data, *self.method_by_cls) from None\n", "C03.R", "UnionByTypeMethod")
     mb.add_text("discriminator-no-typeerror", M, "        except (TypeError, KeyError):\n            raise ValidationError(\n                [],", "        except KeyError:\n            raise ValidationError(\n                [],", "C03.R1", "DiscriminatorMethod")
     mb.add_text("int-no-guard", M, "        if not isinstance(data, int) or isinstance(data, bool):\n            raise bad_type(data, int)\n        return data", "        if data < 0 and not isinstance(data, int):\n            raise bad_type(data, int)\n        return data", "C03.R1", "IntMethod")
